@@ -107,6 +107,8 @@ type Gen struct {
 	entryReach string
 	exceptTerms map[string]string
 	recDefs []string
+	pathIDs map[string]int
+	stableKeys map[string]bool
 	useTwin bool
 	heapAxioms []heapAxiom
 	heapSigs map[string]bool
